@@ -87,7 +87,7 @@ def run(R, tier):
             for first in (True, False):
                 st = fdai.State()
                 st.extra["bytes"] = [rep, ord("1")] if rep is not None else []
-                tk = AggV(LX.TOKENIZER, {i: (M.mk_bytes_iter(0) if nm == "chars" else K(False)) for i, nm in enumerate(tk_fields)})
+                tk = LX.mk_tokenizer(*LX.state_for((False, False, False)))
                 me = AggV(NL + "NumericList", {i: (tk if nm == "tokenizer" else K(first)) for i, nm in enumerate(nl_fields)})
                 cell = Cell(me, "list")
                 st.extra["me"] = cell
@@ -121,7 +121,7 @@ def run(R, tier):
         # `first` is cleared once an entry has been read
         st = fdai.State()
         st.extra["bytes"] = [ord("1"), ord(",")]
-        tk = AggV(LX.TOKENIZER, {i: (M.mk_bytes_iter(0) if nm == "chars" else K(False)) for i, nm in enumerate(tk_fields)})
+        tk = LX.mk_tokenizer(*LX.state_for((False, False, False)))
         cell = Cell(AggV(NL + "NumericList", {i: (tk if nm == "tokenizer" else K(True)) for i, nm in enumerate(nl_fields)}), "list")
         st.extra["me"] = cell
         res = engn.run(b, [RefV(cell, (), True)], st)
